@@ -77,4 +77,6 @@ def dump_one(f: TextIO, data: IOData):
         indexes = (data.atnums == uatnum).nonzero()[0]
         for index in indexes:
             row = np.dot(gvecs, data.atcoords[index])
-            print(f"  {row[0]: 21.16f} {row[1]: 21.16f} {row[2]: 21.16f}   F   F   F", file=f)
+            # Fourteen decimals: more would print rounding noise of the conversion to fractional
+            # coordinates, which then changes from one dump/load cycle to the next.
+            print(f"  {row[0]: 21.14f} {row[1]: 21.14f} {row[2]: 21.14f}   F   F   F", file=f)
